@@ -489,6 +489,10 @@ pub fn run(ctx: &Ctx) -> i32 {
         vec!["move r1", "move r1 1 2", "registers"],
         vec!["step into 60000", "registers"],
         vec!["reset", "registers", "step"],
+        // segments that are blank but not empty
+        vec!["move r1 5", " ", "print r1"],
+        vec!["step", "  ", "registers", " "],
+        vec![" ", "registers"],
     ];
     let mut variants: Vec<(usize, Vec<String>, Vec<u8>, String)> = Vec::new();
     for (si, s) in scripts.iter().enumerate() {
@@ -630,7 +634,7 @@ pub fn run(ctx: &Ctx) -> i32 {
         ctx,
         acc,
         Level { category: "model_checking", bfs: None },
-        "bounded-exhaustive enumeration: (a) every string of length 1..=5 (quick) / 6 (thorough) over the 19-character alphabet {+ - # x o b 0 1 7 9 a f g ^ r _ é ı Ų} in each of six argument positions (integer value, step count, location of print / move, address of goto / break add), (a2) every non-control character of the Basic Multilingual Plane (thorough: planes 0-3; the argument separator space and the command separator `;` excepted) at 14 places of a token ({c}, 1{c}, {c}1, x{c}f, x1{c}, r{c}, r0{c}, {c}0, lab{c}, {c}lab, ^{c}, ^1{c}, #{c}5, lab+{c}) in the same six positions, parsed by the real command parser and by the reference recogniser of the documented grammar: same acceptance and, when accepted, the same command with the same values (Debug rendering); (b) every value 0..65535 and -1..-32768 in every documented spelling (sign before or after the prefix, optional leading zero, 4 radices, letter case, leading zeros) as integer, as address and as PC offset, plus the i32 boundary and the values MAX/radix (+1) in each radix, bare and followed by label characters or an offset, and tokens of 250-260 and 510-514 digits; (c) every name documented in help.txt in three letter cases, every such name with each of its letters replaced by each non-ASCII character of the Basic Multilingual Plane (rejected), every name glued to a rest by a white-space character other than the space (rejected), and every word of <= 3 letters with four argument shapes (totality, case-insensitivity); (d) every token of length <= 3 (thorough 4, stride 5) through the real debugger (`move r1 T`, `goto T`, `break add T`) against the reference debugger: accepted tokens have exactly the documented effect, rejected ones none; (e) 18 scripts (incl. 2-, 3- and 4-byte characters) x every split point between --command and stdin x ';'/newline per gap x trailing separator through the real binary: identical exit status, stdout and stderr; (e2) scripts of 300, 5000 and 20000 `move r1 #i` commands and a final `print r1` through five transports (--command with `;` / with newlines, half and half, stdin lines, stdin one line): the last value is printed, and all transports agree. A seeded random supplement of longer strings with multi-byte characters is run and reported separately (sampling, not part of the exhaustive claim). non-trivial = accepted-and-equal parses + agreeing sessions / variants",
+        "bounded-exhaustive enumeration: (a) every string of length 1..=5 (quick) / 6 (thorough) over the 19-character alphabet {+ - # x o b 0 1 7 9 a f g ^ r _ é ı Ų} in each of six argument positions (integer value, step count, location of print / move, address of goto / break add), (a2) every non-control character of the Basic Multilingual Plane (thorough: planes 0-3; the argument separator space and the command separator `;` excepted) at 14 places of a token ({c}, 1{c}, {c}1, x{c}f, x1{c}, r{c}, r0{c}, {c}0, lab{c}, {c}lab, ^{c}, ^1{c}, #{c}5, lab+{c}) in the same six positions, parsed by the real command parser and by the reference recogniser of the documented grammar: same acceptance and, when accepted, the same command with the same values (Debug rendering); (b) every value 0..65535 and -1..-32768 in every documented spelling (sign before or after the prefix, optional leading zero, 4 radices, letter case, leading zeros) as integer, as address and as PC offset, plus the i32 boundary and the values MAX/radix (+1) in each radix, bare and followed by label characters or an offset, and tokens of 250-260 and 510-514 digits; (c) every name documented in help.txt in three letter cases, every such name with each of its letters replaced by each non-ASCII character of the Basic Multilingual Plane (rejected), every name glued to a rest by a white-space character other than the space (rejected), and every word of <= 3 letters with four argument shapes (totality, case-insensitivity); (d) every token of length <= 3 (thorough 4, stride 5) through the real debugger (`move r1 T`, `goto T`, `break add T`) against the reference debugger: accepted tokens have exactly the documented effect, rejected ones none; (e) 21 scripts (incl. blank-but-not-empty segments and 2-, 3- and 4-byte characters) x every split point between --command and stdin x ';'/newline per gap x trailing separator through the real binary: identical exit status, stdout and stderr; (e2) scripts of 300, 5000 and 20000 `move r1 #i` commands and a final `print r1` through five transports (--command with `;` / with newlines, half and half, stdin lines, stdin one line): the last value is printed, and all transports agree. A seeded random supplement of longer strings with multi-byte characters is run and reported separately (sampling, not part of the exhaustive claim). non-trivial = accepted-and-equal parses + agreeing sessions / variants",
         true,
         &["strings-enumerated", "transport-variants-agree", "characters-swept", "long-scripts-agree", "names-swept"],
         &["reference grammar = refmodel::cmdlang, validated against the repository's own parser tests by `lacemc selftest`", "negative step counts are not judged (help.txt says Integer, a code comment says non-positive means 1, the code casts to u16)"],
